@@ -11,11 +11,27 @@ import (
 	"verifsim/instr"
 )
 
-const (
-	repoDir  = "/repo"
-	verifDir = "/verif"
-	simDir   = "/verif/sim"
+// repoDir is /repo; VERIF_REPO overrides it only for background sweeps that must not see edits
+// made to /repo while they run (registered checks never set it).
+var repoDir = func() string {
+	if v := os.Getenv("VERIF_REPO"); v != "" {
+		return v
+	}
+	return "/repo"
+}()
+
+var (
+	verifDir = selfDir()
+	simDir   = filepath.Join(selfDir(), "sim")
 )
+
+// selfDir: the /verif tree this driver was started from (a `vp run` snapshot has its own copy).
+func selfDir() string {
+	if v := os.Getenv("VERIF_DIR"); v != "" {
+		return v
+	}
+	return "/verif"
+}
 
 type built struct {
 	scratch   string
@@ -67,11 +83,27 @@ func buildWorkers(race, native bool) *built {
 	if b, err := os.ReadFile(filepath.Join(repoDir, "go.sum")); err == nil {
 		os.WriteFile(filepath.Join(simDir, "go.sum"), b, 0o644)
 	}
+	// a sweep against a snapshot of the repository: same module, different replace target
+	modfile := ""
+	if repoDir != "/repo" {
+		gm, err := os.ReadFile(filepath.Join(simDir, "go.mod"))
+		if err != nil {
+			infra("%v", err)
+		}
+		modfile = filepath.Join(scratch, "go.mod")
+		os.WriteFile(modfile, []byte(strings.Replace(string(gm), "=> /repo", "=> "+repoDir, 1)), 0o644)
+		if sum, err := os.ReadFile(filepath.Join(repoDir, "go.sum")); err == nil {
+			os.WriteFile(filepath.Join(scratch, "go.sum"), sum, 0o644)
+		}
+	}
 	b := &built{scratch: scratch, sites: r.SitesPath, instr: r}
 	build := func(out string, race bool) {
 		args := []string{"build"}
 		if race {
 			args = append(args, "-race")
+		}
+		if modfile != "" {
+			args = append(args, "-modfile="+modfile)
 		}
 		args = append(args, "-overlay", r.OverlayPath, "-o", out, "./worker")
 		cmd := exec.Command("go", args...)
